@@ -203,8 +203,18 @@ func (c *Config) Parent() *Config {
 
 // FlattenedKeys return a sorted flattened views of the set keys in the configuration
 func (c *Config) FlattenedKeys(opts ...Option) []string {
+	return c.flattenedKeys(map[*Config]struct{}{}, opts...)
+}
+
+// flattenedKeys implements FlattenedKeys. visiting holds the configs the
+// current one is nested in: a setting referencing one of them (for example
+// an object referencing itself) is reported as a key and not expanded again.
+func (c *Config) flattenedKeys(visiting map[*Config]struct{}, opts ...Option) []string {
 	var keys []string
 	normalizedOptions := makeOptions(opts)
+
+	visiting[c] = struct{}{}
+	defer delete(visiting, c)
 
 	if normalizedOptions.pathSep == "" {
 		normalizedOptions.pathSep = "."
@@ -214,25 +224,35 @@ func (c *Config) FlattenedKeys(opts ...Option) []string {
 		for _, v := range c.fields.dict() {
 
 			subcfg, err := v.toConfig(normalizedOptions)
+			if err == nil {
+				if _, cyclic := visiting[subcfg]; cyclic {
+					err = ErrCyclicReference
+				}
+			}
 			if err != nil {
 				ctx := v.Context()
 				p := ctx.path(normalizedOptions.pathSep)
 				keys = append(keys, p)
 			} else {
-				newKeys := subcfg.FlattenedKeys(opts...)
+				newKeys := subcfg.flattenedKeys(visiting, opts...)
 				keys = append(keys, newKeys...)
 			}
 		}
 	} else if c.IsArray() {
 		for _, a := range c.fields.array() {
 			scfg, err := a.toConfig(normalizedOptions)
+			if err == nil {
+				if _, cyclic := visiting[scfg]; cyclic {
+					err = ErrCyclicReference
+				}
+			}
 
 			if err != nil {
 				ctx := a.Context()
 				p := ctx.path(normalizedOptions.pathSep)
 				keys = append(keys, p)
 			} else {
-				newKeys := scfg.FlattenedKeys(opts...)
+				newKeys := scfg.flattenedKeys(visiting, opts...)
 				keys = append(keys, newKeys...)
 			}
 		}
